@@ -64,6 +64,24 @@ def scenarios(rng, tier):
                 cut = next(i for i, l in enumerate(h0) if '88d90100000602' in l or l.split()[-1][34:36] == '06')
                 mix = h0[:cut] + h1 + h0[cut:]
             s.start('xaddr_%d~m%d' % (k, j)); s.lines += head + mix
+    # one interface ends its session (Reset of either service, or a second Discover / a drained list) while the OTHER one holds
+    # state that its next frames depend on: observations not yet reported, the mapper association, generations, a cached icon
+    for k in range(12 if tier == 'quick' else 120):
+        m0, m1 = bytes([2, 0xA1, 0, 0, 0, k & 255]), bytes([2, 0xB1, 0, 0, 0, k & 255])
+        head = [Cfg(0, mac=m0).line(), Cfg(1, mac=m1).line(), gline(host=b'h', icon=bytes(range(200)), fname=b'n', hwid=b'x')]
+        first, other = (0, 1) if k % 2 == 0 else (1, 0)          # which interface the responder sees first
+        me = {0: m0, 1: m1}
+        def fr(c, b): return 'frame %d 00 %s' % (c, hx(b))
+        hold = [fr(first, discover(M, gen=9, seq=3))] + [fr(first, probe(mac(800 + i), me[first], mac(800 + i), me[first])) for i in range(3)] + [fr(first, qlt(M, me[first], 14, 0, seq=4))]
+        after = [fr(first, query(M, me[first], seq=5)), fr(first, discover(mac(2), gen=1)), fr(first, emit(M, me[first], [(0, 0, mac(7), mac(8))], seq=6)), fr(first, discover(M, gen=0, seq=7)),
+                 fr(first, qlt(M, me[first], 14, 100, seq=8))]
+        ender = [fr(other, discover(mac(3), gen=2)), fr(other, probe(mac(850), me[other], mac(850), me[other])),
+                 fr(other, reset(mac(3), tos=[0, 1, 0][k % 3])) if k % 4 != 3 else fr(other, query(mac(3), me[other], seq=2))]
+        hists = {first: hold + after, other: ender}
+        s.start('endoth_%d~a0' % k); s.lines += head + hists[0]
+        s.start('endoth_%d~a1' % k); s.lines += head + hists[1]
+        s.start('endoth_%d~m0' % k); s.lines += head + hold + ender + after
+        s.start('endoth_%d~m1' % k); s.lines += head + hold[:1] + ender[:1] + hold[1:] + ender[1:] + after
     # an interface whose address getter fails for a moment, exactly while ANOTHER interface is seen for the first time
     for k in range(8 if tier == 'quick' else 100):
         m0 = bytes([2, 0xA0, 0, 0, 1, k & 255]); head = [Cfg(0, mac=m0).line()]
